@@ -3,7 +3,6 @@ from glob import glob
 import queue
 import os
 import time
-from inspect import isawaitable
 
 from tornado import gen
 import weakref
@@ -254,9 +253,7 @@ class from_tcp(Source):
                 while not self.source.stopped:
                     try:
                         data = await stream.read_until(self.source.delimiter)
-                        result = self.source._emit(data)
-                        if isawaitable(result):
-                            await result
+                        await asyncio.gather(*self.source._emit(data))
                     except StreamClosedError:
                         break
 
